@@ -412,8 +412,9 @@ class Ctx:
         replay.setdefault("property", self.prop)
         replay.setdefault("seed", self.seed)
         replay.setdefault("tier", self.tier)
-        with open(os.path.join(VERIF, rel), "w") as f:
-            json.dump(replay, f, indent=1, sort_keys=True, default=str)
+        if len(self.violations) < 20:
+            with open(os.path.join(VERIF, rel), "w") as f:
+                json.dump(replay, f, indent=1, sort_keys=True, default=str)
         if len(self.violations) < 5:
             line = "VIOLATION property=%s replay=%s" % (self.prop, rel)
             if no_input:
